@@ -48,7 +48,7 @@ def eval_term(t, tup):
         return tup.get(t[1])
     if k in ('IMM', 'IMMC', 'IMMX'):
         return tup.get('imm')
-    if k == 'ISARITH':
+    if k in ('ISARITH', 'ISLITERAL'):
         return True          # enumerated operands are literals
     if k in ('ISOFFSET', 'KIND', 'UNDEF'):
         return False         # ... not pc-relative label references, and their evaluation succeeds
@@ -380,7 +380,7 @@ def check_final_immediates(report, rel, rule):
     report.count('immediate-dropping rules', n)
 
 
-ENUM_ASSIGN = {'ISARITH': True, 'ISOFFSET': False, 'KIND': False, 'UNDEF': False}
+ENUM_ASSIGN = {'ISARITH': True, 'ISLITERAL': True, 'ISOFFSET': False, 'KIND': False, 'UNDEF': False}
 
 
 def simplify(f, assign):
@@ -418,6 +418,25 @@ def simplify(f, assign):
             return flat[0]
         return (k, flat)
     return f
+
+
+def check_literal_blind(report, rel, rule):
+    """A rule may not ask whether the operand is *written* as a number: a named constant with the same value has to be treated
+    exactly like the literal (it only has to be label-free, which evaluating it against the constants establishes)."""
+    n = 0
+    for ru in rel.rules:
+        terms = [t for f in ru.formulas for t in terms_of(f)]
+        if not any(t[0] in ('IMM', 'IMMC', 'IMMX') for t in terms):
+            continue
+        n += 1
+        con = rel.constructions.get(ru.key)
+        node = con.node if con is not None else rel.pa.loop
+        report.check(not any(t[0] == 'ISLITERAL' for t in terms), rule, "rule '{}' does not look at how the operand is spelled".format(ru.key),
+                     lambda ru=ru, node=node: Finding(rule, 'transform_compressible', node,
+                                                      "rule '{}' applies only when the immediate is written as an integer literal: the same instruction with a named constant of "
+                                                      'that value is not compressed, so replacing a constant by its value changes the binary and the labels behind it'.format(ru.key),
+                                                      line=getattr(node, 'lineno', None)))
+    report.count('rules that test an immediate', n)
 
 
 def check_operand_value(report, rel, rule):
